@@ -92,10 +92,13 @@ class Interp:
             sv.add(c)
             asserted.append(id(c))
             _ALIVE.append(c)
-        if cond is None:
+        sax = self.singleton_axioms()
+        if cond is None and not sax:
             return sv.check() != z3.unsat
         sv.push()
-        sv.add(cond)
+        sv.add(*sax)
+        if cond is not None:
+            sv.add(cond)
         r = sv.check()
         sv.pop()
         return r != z3.unsat
@@ -143,7 +146,7 @@ class Interp:
             extra["ghost0"] = {g: v.t for g, v in ((st.old[2] if st.old else {}) or {}).items() if isinstance(v, Sym)}
             extra["A0"] = st.A0
         ctx = (st, self.cur_entry) if self.cur_entry is not None else None
-        self.obligs.append(Oblig(f"{self.prop}/{self.cur_short()}/{name}", list(st.pc), goal, list(st.trace), self.cur_q, kind, extra, ctx, clause))
+        self.obligs.append(Oblig(f"{self.prop}/{self.cur_short()}/{name}", self.singleton_axioms() + list(st.pc), goal, list(st.trace), self.cur_q, kind, extra, ctx, clause))
 
     def cur_short(self):
         q = self.cur_q or "?"
@@ -256,12 +259,19 @@ class Interp:
         if k == "regex": return RegexV(f)
         if k == "singleton":
             loc = self.w.singleton_loc(f["name"])
+            if f.get("cls") in self.w.class_ids and loc not in self.w.singleton_cls:
+                self.w.singleton_cls[loc] = f["cls"]
             return Sym(mk_ref(z3.IntVal(loc)), hint=f.get("cls"))
         raise Unsupported(f"fact kind {k}")
 
-    def singleton_axioms(self, st):
-        """cls_of facts for the fixed locations referenced so far (added to the initial pc lazily)."""
-        return []
+    def singleton_axioms(self, st=None):
+        """cls_of facts for the fixed locations (module singletons) referenced so far."""
+        n = len(self.w.singleton_cls)
+        if getattr(self, "_sing_n", -1) != n:
+            self._sing_ax = [cls_of(z3.IntVal(loc)) == self.w.cid(q) for loc, q in self.w.singleton_cls.items()]
+            self._sing_n = n
+            _ALIVE.extend(self._sing_ax)
+        return self._sing_ax
 
     def truthy(self, st, v):
         """z3 Bool: Python truthiness of a Value."""
@@ -749,7 +759,7 @@ class Interp:
             except SpecError:
                 pass
             for mn, m in self.w.facts["modules"].items():
-                if name in m["globals"] and m["globals"][name]["k"] in ("singleton", "int", "str", "frozenset", "tuple", "bool"):
+                if name in m["globals"] and m["globals"][name]["k"] in ("singleton", "int", "str", "frozenset", "set", "tuple", "bool"):
                     return self.from_fact(m["globals"][name])
         raise Unsupported(f"unresolved name {name!r} in {fr.q}")
 
@@ -1078,6 +1088,12 @@ class Interp:
                 return self.from_fact(mod["globals"][name])
             raise Unsupported(f"{m.name}.{name} not found")
         full = f"{m.name}.{name}"
+        if m.name in ("errno",):
+            import importlib
+            val = getattr(importlib.import_module(m.name), name, None)
+            if isinstance(val, int):
+                self.stats["builtins_used"].add(f"constant {full} read from the engine interpreter's stdlib (same platform)")
+                return Sym(pyint(val))
         if full == "typing.TYPE_CHECKING":
             return Sym(FALSE)
         if full in self.w.class_ids:
